@@ -782,6 +782,21 @@ func gen(tier string, seed uint64) []runner.Scenario {
 			}
 		}
 	}
+	// directed buffered-channel programs: more sends than the buffer holds before anybody receives; every
+	// send is matched by a receive in the end, none is dropped
+	for _, pt := range chanPoints {
+		for k, procs := range [][][]chanOp{
+			{{cMake1, cSend, cSend}, {cRecv}, {cRecv}},
+			{{cMake1, cSend, cSend, cSend}, {cRecv, cRecv, cRecv}},
+			{{cMake1, cSend}, {cSend}, {cSend}, {cRecv, cRecv, cRecv}},
+		} {
+			for nth := 1; nth <= 2; nth++ {
+				pt, procs, nth := pt, procs, nth
+				id := fmt.Sprintf("chan-buffer-full/%s/%d/nth%d", pt, k, nth)
+				out = append(out, runner.Scenario{ID: id, Run: func() runner.Result { return chanScenario(id, pt, nth, procs) }})
+			}
+		}
+	}
 	// directed first-use programs: the very first calls on a zero Chan are a Get and polls of Full on
 	// other goroutines, one of them parked inside the lazy creation; every Get, then and later, must
 	// hand out the one channel
